@@ -94,8 +94,8 @@ def case_line(c):
     return " ".join(toks)
 
 
-def run_model(cases):
-    """Run the extracted model on the cases; one JSON observation per case."""
+def run_model(cases, libm=False):
+    """Run the extracted model on the cases; one JSON observation per case (libm: with the log of the libm calls)."""
     if not cases:
         return []
     with tempfile.NamedTemporaryFile("w", suffix=".cases", delete=False, dir=os.environ.get("OSV_WORK")) as f:
@@ -104,7 +104,7 @@ def run_model(cases):
         path = f.name
     try:
         with open(path) as fin:
-            p = subprocess.run(["bash", "-c", "ulimit -s 1000000 2>/dev/null; exec \"$0\"", DRIVER], stdin=fin,
+            p = subprocess.run(["bash", "-c", "ulimit -s 1000000 2>/dev/null; exec \"$0\" \"$@\"", DRIVER] + (["--libm"] if libm else []), stdin=fin,
                                capture_output=True, text=True, timeout=3600)
         lines = p.stdout.splitlines()
         if p.returncode != 0 or len(lines) != len(cases):
